@@ -106,14 +106,34 @@ pub fn gen_c06(rng: &mut Rng, idx: u64) -> H1Scenario {
             cfg.keep_alive = Ka::TimeoutMs(k);
             cfg.req_timeout_ms = if rng.chance(1, 2) { 0 } else { 5000 };
             cfg.disc_timeout_ms = if rng.chance(1, 3) { *rng.pick(&[500u64, 1000]) } else { 0 };
-            let second = rng.chance(3, 4);
-            let mut reqs = vec![simple_req(1, ConnOpt::Absent)];
+            // a chunked upload the handler ignores: the response goes out early, the rest of the
+            // body arrives in a later read and is drained by the dispatcher; afterwards the
+            // connection is idle and the keep-alive timer must still close it (seed C06-3)
+            let upload = rng.chance(1, 4);
+            let second = !upload && rng.chance(3, 4);
+            let mut first = simple_req(1, ConnOpt::Absent);
+            if upload {
+                first.method = "POST".into();
+                first.framing = gen_chunked(rng);
+                if let Framing::Chunked { sizes, .. } = &first.framing {
+                    first.body_len = sizes.iter().sum();
+                }
+            }
+            let mut reqs = vec![first];
             if second {
                 reqs.push(simple_req(2, ConnOpt::Absent));
             }
             conn = base_conn(reqs, start_ms);
             let layout = conn.layout();
             let mut segs = vec![Seg { end: layout[0].2, delay_ms: rng.below(300) as u32, wait: Wait::Time }];
+            if upload {
+                let cut = rng.range(layout[0].1, layout[0].2 - 1);
+                segs = vec![
+                    Seg { end: cut, delay_ms: rng.below(300) as u32, wait: Wait::Time },
+                    Seg { end: layout[0].2, delay_ms: rng.range(1, 250) as u32, wait: Wait::Time },
+                ];
+                conn.progs = vec![Prog { steps: vec![Step::DropPayload], answer: Answer::ok_empty() }];
+            }
             if second {
                 let d = pick_delay(rng, k);
                 // optionally the second head itself arrives in two pieces
@@ -372,9 +392,15 @@ pub fn check_c06(sc: &H1Scenario, out: &H1Out) -> Vec<Violation> {
                     _ => {}
                 }
                 let quiet = second_started.map(|s| s > deadline + EPS).unwrap_or(true);
+                // an ignored upload whose tail arrives after the early response: the connection may
+                // count as idle from the end of the response or from the last drained body octet
+                let (lo, hi) = match delivered_time(co, layout[0].2) {
+                    Some(b) if cs.reqs[0].has_body() => (deadline.min(b + k), deadline.max(b + k)),
+                    _ => (deadline, deadline),
+                };
                 if quiet {
                     match close_time(co) {
-                        Some(c) if c + RES + EPS >= deadline && c <= deadline + EPS => {}
+                        Some(c) if c + RES + EPS >= lo && c <= hi + EPS => {}
                         other => vs.push(Violation::new(
                             "C06.keepalive",
                             if other.is_none() { "idle-connection-never-closed" } else { "idle-close-outside-window" },
